@@ -265,7 +265,7 @@ func c36Subsets(n, maxSize int) [][]int {
 func TestVerif_C36_engine(t *testing.T) {
 	mc.Run(t, "C36", func(r *mc.R) {
 		maxSize := mc.Pick(r, 3, 4)
-		r.Rule("rule sets {cancun, prague, osaka, amsterdam} x 2 payload-attribute combinations x every subset of <= max_pool_size transactions of a 15-entry alphabet added to the real pools of a full eth service (quick: pools of the maximal size take one attribute combination each, round robin); " +
+		r.Rule("rule sets {cancun, prague, osaka, amsterdam} x 2 payload-attribute combinations x every subset of <= max_pool_size transactions of a 15-entry alphabet added to the real pools of a full eth service (quick: pools of 2 and 3 transactions take one attribute combination each, round robin); " +
 			"ForkchoiceUpdated(head=genesis, attributes) -> full payload -> NewPayload of the fork's version; distinct = distinct payload block hashes")
 		r.Bound("max_pool_size", maxSize)
 		r.Assume("one eth.Ethereum service per rule set, head stays at genesis, prevRandao unique per case; the transaction pools are the real legacypool and blobpool (blob sidecars with valid KZG commitments/proofs)")
@@ -303,7 +303,7 @@ func TestVerif_C36_engine(t *testing.T) {
 								return nil
 							}
 							// quick tier: pools of the maximal size take one attribute combination each (round robin)
-							if r.Quick() && len(s) == maxSize && si%len(attrs) != ai {
+							if r.Quick() && len(s) >= 2 && si%len(attrs) != ai {
 								continue
 							}
 							names := []string{}
